@@ -2168,6 +2168,29 @@ class Normaliser:
             i = 0
             while i < len(blk):
                 st = blk[i]
+                # if a and helper(b): BODY  (no else)  ->  if a: if helper(b): BODY
+                if isinstance(st, ast.If) and not st.orelse and isinstance(st.test, ast.BoolOp) \
+                        and isinstance(st.test.op, ast.And) and len(st.test.values) >= 2:
+                    def inlinable(e) -> bool:
+                        for c in ast.walk(e):
+                            if isinstance(c, ast.Call):
+                                r_ = self._callee_for(c, fn, rel, mod, cls, stack)
+                                if r_ is not None:
+                                    b_ = self._body(r_[0])
+                                    if not (len(b_) == 1 and isinstance(b_[0], ast.Return)):
+                                        return True
+                        return False
+                    vals = st.test.values
+                    k = next((j for j, v in enumerate(vals) if j > 0 and inlinable(v)), None)
+                    if k is not None and not any(inlinable(v) for v in vals[:k]):
+                        first = vals[0] if k == 1 else ast.BoolOp(op=ast.And(), values=vals[:k])
+                        second = vals[k] if k == len(vals) - 1 else ast.BoolOp(op=ast.And(), values=vals[k:])
+                        inner = ast.copy_location(ast.If(test=second, body=st.body, orelse=[]), st)
+                        st.test = first
+                        st.body = [inner]
+                        ast.fix_missing_locations(st)
+                        changed = True
+                        continue
                 hoisted = self._hoist(st, fn, rel, mod, cls, stack, caller_names)
                 if hoisted is not None:
                     blk[i:i] = [hoisted]
